@@ -89,17 +89,18 @@ type c02Req struct {
 }
 
 type c02Prod struct {
-	id          int
-	req         *c02Req
-	ctx         context.Context
-	cancel      context.CancelFunc
-	cancelled   bool
-	task        *simkit.Task
-	yield       [3]bool
-	lastSite    string // last cond hook site seen for the outstanding offer ("" = never in cond)
-	passed      bool   // the goroutine has left that hook site (was not parked or has been released)
-	sizeAtOffer int64
-	lockAt      string // lock-yield id at which the producer is parked before taking the queue mutex ("" = not parked)
+	id                   int
+	req                  *c02Req
+	ctx                  context.Context
+	cancel               context.CancelFunc
+	cancelled            bool
+	task                 *simkit.Task
+	yield                [3]bool
+	cancelledBeforeAdmit bool   // its context was cancelled while it was parked between wake-up and re-lock
+	lastSite             string // last cond hook site seen for the outstanding offer ("" = never in cond)
+	passed               bool   // the goroutine has left that hook site (was not parked or has been released)
+	sizeAtOffer          int64
+	lockAt               string // lock-yield id at which the producer is parked before taking the queue mutex ("" = not parked)
 }
 
 type c02Sim struct {
@@ -412,6 +413,9 @@ func runC02(r *simkit.Run) {
 				p := p
 				ch = append(ch, simkit.Choice{Name: fmt.Sprintf("cancel:p%d", p.id), W: 1, Fire: func() {
 					p.cancelled = true
+					// cancelled between its wake-up and the re-lock: whatever the queue does with the context next
+					// (a persistent queue: the storage transaction of the Offer) sees it ended
+					p.cancelledBeforeAdmit = p.lastSite == "cond.woken.signal" && !p.passed
 					r.Count("fault.ctx_cancel")
 					p.cancel()
 				}})
@@ -554,6 +558,7 @@ func (s *c02Sim) offer(p *c02Prod) {
 	p.req = rq
 	p.cancelled = false
 	p.lastSite = ""
+	p.cancelledBeforeAdmit = false
 	p.passed = false
 	p.yield = [3]bool{}
 	if s.cfg.Yields {
@@ -762,7 +767,10 @@ func (s *c02Sim) observe(ev string) {
 				if !p.cancelled {
 					r.Failf("offer-result", "spurious-cancel", "producer p%d got %v without its context being cancelled", p.id, err)
 				}
-				if !neverAdmitted {
+				if cfg.Persistent && p.cancelledBeforeAdmit {
+					// the storage refused the Offer's transaction because the producer's context had ended: not admitted
+					r.Count("probe.refused_context_ended_before_storage_write")
+				} else if !neverAdmitted {
 					if !cfg.Wait {
 						r.Failf("offer-result", "cancel-outside-wait", "producer p%d got %v although it was not waiting for space", p.id, err)
 					}
